@@ -5,6 +5,7 @@ import (
 	"fmt"
 	"io"
 	"os"
+	"regexp"
 	"runtime/debug"
 	"strings"
 	"sync/atomic"
@@ -55,7 +56,9 @@ type cfgSpec struct {
 	Keys     []string // event paths the config names: "a" or "a.b"
 	Extra    []string // extra raw-JSON leaves for the named keys (plugin-specific content)
 	Seq      []string // sequence alphabet (documents); empty = derived from Keys
+	Prefix   []string // if set: every single event is also sent after these events (enumeration from a non-initial state)
 	Settings *settingsSpec
+	Heavy    bool // Start is expensive: the whole config is owned by one shard, the other shards do not even probe it
 }
 
 type pluginSpec struct {
@@ -63,10 +66,11 @@ type pluginSpec struct {
 	Configs  []cfgSpec
 	Extra    []string // extra leaves for every config of the plugin
 	Seq      []string // sequence alphabet for every config that has none
+	Prefix   []string // prefix for every config that has none
 	Timeouts bool     // the plugin can return Hold/Collapse, so it may be sent time-out events
 	Stateful bool
 	Prep     func(c *cfgSpec, ev *pipeline.Event) // what the pipeline adds to the decoded event before the action sees it
-	Reset    func()                               // clears process-global state of the plugin package before a fresh instance
+	Reset    func(c *cfgSpec)                     // clears process-global state of the plugin package before a fresh instance
 	After    func()                               // after Start (fix clocks)
 	Skipped  []string                             // documented options that are not exercised
 }
@@ -115,7 +119,7 @@ func newAction(typ, configJSON string, ctl pipeline.ActionPluginController, sett
 
 func newInstance(spec *pluginSpec, c *cfgSpec) (*instance, string) {
 	if spec.Reset != nil {
-		spec.Reset()
+		spec.Reset(c)
 	}
 	ctl := &vplug.Controller{}
 	st := newAction(spec.Type, c.JSON, ctl, c.Settings.settings())
@@ -142,7 +146,23 @@ type viol struct {
 	detail   string
 }
 
-func (v *viol) key() string { return v.clause + "|" + v.features["site"] }
+func (v *viol) key() string { return v.clause + "|" + v.features["site"] + "|" + v.features["msg"] }
+
+var (
+	reQuoted = regexp.MustCompile(`"[^"]*"`)
+	reDigits = regexp.MustCompile(`[0-9]+`)
+)
+
+// normMsg: the panic message without the data it quotes (quoted strings -> "", numbers -> #), first 48 bytes
+func normMsg(val string) string {
+	m := reQuoted.ReplaceAllString(val, `""`)
+	m = reDigits.ReplaceAllString(m, "#")
+	m = strings.ToValidUTF8(m, "?")
+	if len(m) > 48 {
+		m = m[:48]
+	}
+	return m
+}
 
 var resultNames = map[pipeline.ActionResult]string{
 	pipeline.ActionPass: "pass", pipeline.ActionCollapse: "collapse", pipeline.ActionDiscard: "discard",
@@ -194,7 +214,7 @@ type stepOut struct {
 func step(spec *pluginSpec, c *cfgSpec, in *instance, doc string) (so stepOut, v *viol) {
 	progress.Add(1)
 	feat := func(extra ...string) map[string]string {
-		m := map[string]string{"plugin": spec.Type, "root": rootKind(doc)}
+		m := map[string]string{"plugin": spec.Type}
 		for i := 0; i+1 < len(extra); i += 2 {
 			m[extra[i]] = extra[i+1]
 		}
@@ -235,7 +255,7 @@ func step(spec *pluginSpec, c *cfgSpec, in *instance, doc string) (so stepOut, v
 		if strings.Contains(stack, "zapcore.CheckWriteAction.OnWrite") || strings.Contains(stack, "zapcore.(*CheckedEntry).Write") {
 			via = "logger" // logger.Fatal*/Panic*: exits or panics the collector
 		}
-		return so, &viol{"panic", feat("site", panicSite(stack), "via", via), "Do panicked: " + clip(val) + "\n" + trimStack(stack)}
+		return so, &viol{"panic", feat("site", panicSite(stack), "via", via, "msg", normMsg(val)), "Do panicked: " + clip(val) + "\n" + trimStack(stack)}
 	}
 	so.res = res
 	if _, ok := resultNames[res]; !ok {
@@ -378,6 +398,26 @@ func (rn *runner) runBlock(spec *pluginSpec, c *cfgSpec, ci int, docs []string) 
 	}
 }
 
+// runPrefixed: every single event after a fixed prefix (e.g. "a join has been started"), each on a fresh instance,
+// followed by a time-out when one is deliverable.
+func (rn *runner) runPrefixed(spec *pluginSpec, c *cfgSpec, ci int, prefix, docs []string) {
+	r := rn.r
+	for _, doc := range docs {
+		events := append(append([]string{}, prefix...), doc)
+		if spec.Timeouts {
+			events = append(events, timeoutDoc)
+		}
+		cur := tcase{Plugin: spec.Type, Config: c.JSON, Settings: c.Settings, Events: events}
+		curCase.Store(&cur)
+		r.Case()
+		r.Count(spec.Type+".cases", 1)
+		r.Count(spec.Type+".prefixed", 1)
+		if v, upto, _ := rn.runSeq(spec, c, ci, events, true); v != nil {
+			rn.report(spec, c, events[:upto], v)
+		}
+	}
+}
+
 func (rn *runner) runSequences(spec *pluginSpec, c *cfgSpec, ci int, alpha []string, from, to int) {
 	r := rn.r
 	n := len(alpha)
@@ -428,6 +468,8 @@ type work struct {
 	docs     []string // a block of single events, or
 	alpha    []string // a sequence alphabet with the range of first letters
 	from, to int
+	owner    int64    // index that decides the shard
+	prefix   []string // single events are sent after this prefix, each on a fresh instance
 }
 
 func seqAlphabet(spec *pluginSpec, c *cfgSpec) []string {
@@ -530,7 +572,20 @@ func TestVerif(t *testing.T) {
 		for ci := range spec.Configs {
 			c := &spec.Configs[ci]
 			totalCfg++
+			owner := int64(-1)
+			if c.Heavy {
+				owner = int64(len(items))
+				if !r.Mine(owner) {
+					// accepted by construction of the table (the owning shard checks it); nothing to run here
+					items = append(items, work{spec: spec, cfg: c, ci: ci, owner: owner})
+					continue
+				}
+			}
+			t0 := time.Now()
 			in, reason := newInstance(spec, c)
+			if os.Getenv("VERIF_DEBUG") != "" && time.Since(t0) > 50*time.Millisecond {
+				fmt.Printf("SLOW START %s %s: %v\n", spec.Type, c.JSON, time.Since(t0))
+			}
 			if in == nil {
 				if r.R.Shard == 0 {
 					r.Count(spec.Type+".configs_rejected", 1)
@@ -544,7 +599,7 @@ func TestVerif(t *testing.T) {
 			extra := append(append([]string{}, c.Extra...), spec.Extra...)
 			docs, tier := genEvents(c.Keys, extra, capPerConfig, otherTier)
 			alpha := seqAlphabet(spec, c)
-			if r.R.Shard == 0 {
+			if r.R.Shard == 0 || c.Heavy {
 				r.Count(spec.Type+".configs_accepted", 1)
 				r.Count(spec.Type+".single_events", int64(len(docs)))
 				r.Count("tier."+tier, 1)
@@ -557,10 +612,21 @@ func TestVerif(t *testing.T) {
 				if e > len(docs) {
 					e = len(docs)
 				}
-				items = append(items, work{spec: spec, cfg: c, ci: ci, docs: docs[o:e]})
+				items = append(items, work{spec: spec, cfg: c, ci: ci, docs: docs[o:e], owner: owner})
+			}
+			prefix := c.Prefix
+			if prefix == nil {
+				prefix = spec.Prefix
+			}
+			for o := 0; len(prefix) > 0 && o < len(docs); o += blockSize {
+				e := o + blockSize
+				if e > len(docs) {
+					e = len(docs)
+				}
+				items = append(items, work{spec: spec, cfg: c, ci: ci, docs: docs[o:e], owner: owner, prefix: prefix})
 			}
 			for a := 0; a < len(alpha); a++ {
-				items = append(items, work{spec: spec, cfg: c, ci: ci, alpha: alpha, from: a, to: a + 1})
+				items = append(items, work{spec: spec, cfg: c, ci: ci, alpha: alpha, from: a, to: a + 1, owner: owner})
 			}
 		}
 		if r.R.Shard == 0 {
@@ -573,16 +639,22 @@ func TestVerif(t *testing.T) {
 	r.Bound("configs_listed", totalCfg)
 	r.Bound("work_items", len(items))
 	for i := range items {
-		if !r.Mine(int64(i)) {
+		w := &items[i]
+		own := int64(i)
+		if w.owner >= 0 {
+			own = w.owner
+		}
+		if !r.Mine(own) {
 			continue
 		}
 		if r.Expired() {
 			break
 		}
-		w := &items[i]
-		if w.docs != nil {
+		if w.prefix != nil {
+			rn.runPrefixed(w.spec, w.cfg, w.ci, w.prefix, w.docs)
+		} else if w.docs != nil {
 			rn.runBlock(w.spec, w.cfg, w.ci, w.docs)
-		} else {
+		} else if w.alpha != nil {
 			rn.runSequences(w.spec, w.cfg, w.ci, w.alpha, w.from, w.to)
 		}
 	}
